@@ -161,3 +161,101 @@ Lemma held_token_is_stable pr c r st :
 Proof.
   intros Ha. destruct (client_step_state pr c st r) as [H|[H _]]; [exact H|congruence].
 Qed.
+
+(* ------------------------------------------------------------------ the public token API in the view body *)
+Lemma client_step_a_none pr c st r : client_step_a pr c st (ANone, r) = client_step pr c st r.
+Proof.
+  unfold client_step_a. cbn [fst snd]. destruct (client_step pr c st r) as [out st1]. destruct out; reflexivity.
+Qed.
+
+(* the body's use of the API never changes the verdict of the request it serves *)
+Lemma client_step_a_outcome pr c st a r :
+  fst (client_step_a pr c st (a, r)) = view_outcome_p pr c (with_client_state st r).
+Proof.
+  unfold client_step_a. cbn [fst snd]. destruct (client_step pr c st r) as [out st1] eqn:E. cbn [fst].
+  change out with (fst (out, st1)). rewrite <- E. reflexivity.
+Qed.
+
+(* a body that did not run (rejected request) changes nothing beyond what the check itself did *)
+Lemma rejected_body_has_no_effect pr c st a r :
+  fst (client_step_a pr c st (a, r)) <> Ran -> snd (client_step_a pr c st (a, r)) = snd (client_step pr c st r).
+Proof.
+  unfold client_step_a. cbn [fst snd]. destruct (client_step pr c st r) as [out st1]. cbn [fst snd].
+  destruct out; intros H; try reflexivity. contradiction.
+Qed.
+
+(* new_csrf_token in the body replaces the held token by the fresh one *)
+Lemma rotation_installs_fresh pr c st r :
+  fst (client_step_a pr c st (ANew, r)) = Ran -> snd (client_step_a pr c st (ANew, r)) = Some (r_fresh r).
+Proof.
+  unfold client_step_a. cbn [fst snd]. destruct (client_step pr c st r) as [out st1]. cbn [fst snd].
+  intros ->. reflexivity.
+Qed.
+
+(* get_csrf_token in the body leaves a held token alone and mints exactly when none is held *)
+Lemma body_get_state pr c st r :
+  fst (client_step_a pr c st (AGet, r)) = Ran -> r_fresh r <> [] ->
+  snd (client_step_a pr c st (AGet, r)) = store_after_get (c_storage c) st (r_fresh r).
+Proof.
+  unfold client_step_a. cbn [fst snd]. pose proof (client_step_state pr c st r) as Hs.
+  destruct (client_step pr c st r) as [out st1]. cbn [fst snd] in *. intros -> Hf. cbn [body_store].
+  destruct Hs as [->|(Ha & -> & _)]; [reflexivity|].
+  change (r_fresh (with_client_state st r)) with (r_fresh r).
+  destruct (get_mints_iff_absent (c_storage c) st (r_fresh r)) as [Hm _]. rewrite <- (Hm Ha).
+  apply minted_token_is_kept. exact Hf.
+Qed.
+
+(* whoever holds a non-empty token gets a checked request through only by supplying exactly that token:
+   after a rotation the token handed out before is refused *)
+Lemma only_held_token_passes pr c t r :
+  t <> [] -> checks_apply c (with_client_state (Some t) r) = true ->
+  view_outcome_p pr c (with_client_state (Some t) r) = Ran ->
+  supplied_token (o_token (effective c)) (o_header (effective c)) (with_client_state (Some t) r) = t.
+Proof.
+  intros Ht Hck Hr. unfold view_outcome_p in Hr. rewrite Hck in Hr.
+  destruct (if o_check_origin (effective c) then _ else OPass); try discriminate.
+  destruct (check_csrf_token_p pr (c_storage c) (o_token (effective c)) (o_header (effective c))
+              (with_client_state (Some t) r)) eqn:Et; try discriminate.
+  unfold check_csrf_token_p in Et. apply policy_check_pass in Et. rewrite Et.
+  unfold expected_token. cbn [r_stored with_client_state]. destruct t; [contradiction|]. destruct (c_storage c); reflexivity.
+Qed.
+
+Lemma rotated_old_token_refused pr c st r r2 :
+  fst (client_step_a pr c st (ANew, r)) = Ran -> r_fresh r <> [] ->
+  checks_apply c (with_client_state (Some (r_fresh r)) r2) = true ->
+  supplied_token (o_token (effective c)) (o_header (effective c)) (with_client_state (Some (r_fresh r)) r2) <> r_fresh r ->
+  fst (client_step_a pr c (snd (client_step_a pr c st (ANew, r))) (ANone, r2)) <> Ran.
+Proof.
+  intros Hran Hf Hck Hne. rewrite (rotation_installs_fresh pr c st r Hran), client_step_a_outcome.
+  intros Hr. apply Hne. exact (only_held_token_passes pr c (r_fresh r) r2 Hf Hck Hr).
+Qed.
+
+Fixpoint requests_of_a (k : N) (steps : list (N * (action * request))) : list (action * request) :=
+  match steps with
+  | [] => []
+  | (k', r) :: rest => if k' =? k then r :: requests_of_a k rest else requests_of_a k rest
+  end.
+Fixpoint outcomes_of_a (k : N) (steps : list (N * (action * request))) (outs : list outcome) : list outcome :=
+  match steps, outs with
+  | (k', _) :: rest, o :: outs' => if k' =? k then o :: outcomes_of_a k rest outs' else outcomes_of_a k rest outs'
+  | _, _ => []
+  end.
+
+(* history independence with the token API in play: in any interleaving client k observes, and ends up holding,
+   what its own requests (with their own body actions) alone would give *)
+Lemma view_history_independent_a pr c k steps : forall s,
+  outcomes_of_a k steps (fst (run_clients_a pr c s steps)) = fst (run_client_a pr c (st_get k s) (requests_of_a k steps)) /\
+  st_get k (snd (run_clients_a pr c s steps)) = snd (run_client_a pr c (st_get k s) (requests_of_a k steps)).
+Proof.
+  induction steps as [|[k' r] rest IH]; intros s; [split; reflexivity|].
+  cbn [run_clients_a requests_of_a].
+  destruct (client_step_a pr c (st_get k' s) r) as [out v] eqn:Ec.
+  specialize (IH (st_set k' v s)).
+  destruct (run_clients_a pr c (st_set k' v s) rest) as [outs s'] eqn:Er. cbn [fst snd] in *.
+  cbn [outcomes_of_a].
+  destruct (N.eqb_spec k' k) as [->|Hne].
+  - cbn [run_client_a]. rewrite Ec. rewrite st_get_set_same in IH.
+    destruct (run_client_a pr c v (requests_of_a k rest)) as [outs2 s2]. cbn [fst snd] in *.
+    destruct IH as [IH1 IH2]. split; [f_equal; exact IH1|exact IH2].
+  - rewrite st_get_set_other in IH by congruence. exact IH.
+Qed.
